@@ -374,6 +374,12 @@ FIXED_CLI = [
     ('int a = -0x100000000u > 0; long b = 0x7fffffffffffffffu / -1; long c = 040000000000u % -3; long d = -0x100000000u >> 60;\n'
      'int e = -0b100000000000000000000000000000000U > 0; int f = -4294967296u > 0; long g = -0x100000000 >> 60; int h = -0x100000000 > 0;\n',
      [('a', 4, 1), ('b', 8, 0), ('c', 8, 4294967296), ('d', 8, 15), ('e', 4, 1), ('f', 4, 1), ('g', 8, -1), ('h', 4, 0)]),
+    # offsetof through several steps with the last member inside an anonymous struct/union: the offsets of the earlier steps stay
+    ('struct in { char pad[6]; struct { short lo; union { int whole; short hi; }; }; };\nstruct outer { long tag; struct in in; struct in arr[3]; };\n'
+     'long a = __builtin_offsetof(struct outer, in.hi), b = __builtin_offsetof(struct outer, arr[2].whole), c = __builtin_offsetof(struct outer, in.lo), d = __builtin_offsetof(struct outer, arr[1].hi);\n'
+     'union U { int raw[16]; struct { char h; short v[6]; } s; struct { long p; struct { int q; short v[3]; } body; } w; };\n'
+     'long e = __builtin_offsetof(union U, s.v[2]), f = __builtin_offsetof(union U, raw[13]), g = __builtin_offsetof(union U, w.body.v[1]), h = __builtin_offsetof(union U, s);\n',
+     [('a', 8, 20), ('b', 8, 68), ('c', 8, 16), ('d', 8, 52), ('e', 8, 6), ('f', 8, 52), ('g', 8, 14), ('h', 8, 0)]),
     # the type of a shift is the promoted LEFT operand's, whatever the type of the count
     ('long a = -8 >> 1u; long b = -1L >> 63ull; int c = sizeof(1 << 2ul); long d = -16 >> 2ul; int e = sizeof(1 >> 1ll); long f = (-1 >> 1u) < 0; long g = 1u << 31l; int h = sizeof((char)1 << 1ul);\n',
      [('a', 8, -4), ('b', 8, -1), ('c', 4, 4), ('d', 8, -4), ('e', 4, 4), ('f', 8, 1), ('g', 8, 2147483648), ('h', 4, 4)]),
